@@ -405,11 +405,9 @@ void check_grid(vh::Case& c, const Spec& S) {
       for (size_t t = 0; t < mfaces[p].size(); ++t) if (mfaces[p][t] == gb[p][k]) wanti = msign[p][t];
       c.count("cmp.incidence");
       if (inc != 1 && inc != -1) { c.violation("incidence.unit", cs, "incidence(" + vh::str(p) + "," + vh::str(gb[p][k]) + ")=" + vh::str(inc)); return; }
-      if (inc != wanti) {
-        c.violation("incidence.documented_formula", cs + (wraps ? ",wraps" : ""), "compute_incidence_between_cells(" + vh::str(p) + " " + G.show(coord[p]) + "," +
-                    vh::str(gb[p][k]) + " " + G.show(coord[gb[p][k]]) + ")=" + vh::str(inc) + " documented formula gives " + vh::str(wanti));
-        return;
-      }
+      // the sign convention of compute_incidence_between_cells is not part of the property: agreement with the documented formula is counted;
+      // what is required of the incidence numbers is +-1, alternation along the enumerated boundary and (below) that they compose to zero
+      if (inc == wanti) c.count("info.incidence.equals_documented_formula"); else c.count("info.incidence.differs_from_documented_formula");
       if (k > 0) {
         int prev = b.compute_incidence_between_cells(p, gb[p][k - 1]);
         if (prev != -inc) {
@@ -418,6 +416,19 @@ void check_grid(vh::Case& c, const Spec& S) {
           return;
         }
       }
+    }
+  }
+
+  // ---- the incidence numbers returned by the library define a boundary operator: sum_f [p:f][f:g] = 0 for every cell p and every g
+  for (size_t p = 0; p < N && !kSkipSignChecks; ++p) {
+    if (mdim[p] < 2) continue;
+    std::map<size_t, int> acc;
+    for (size_t f : gb[p]) { int a = b.compute_incidence_between_cells(p, f); for (size_t g : gb[f]) acc[g] += a * b.compute_incidence_between_cells(f, g); }
+    c.count("cmp.incidence_dd_zero");
+    for (auto& kv : acc) if (kv.second != 0) {
+      c.violation("incidence.dd_zero", sig0 + ",celldim=" + vh::str(mdim[p]), "with the incidence numbers of compute_incidence_between_cells, dd(" + vh::str(p) + " " + G.show(coord[p]) +
+                  ") has coefficient " + vh::str(kv.second) + " on cell " + vh::str(kv.first) + " " + G.show(coord[kv.first]));
+      return;
     }
   }
 
